@@ -574,13 +574,15 @@ func (w *World) closeAll() {
 	}
 }
 
-// runAll runs every thread round-robin until nothing is enabled.
+// runAll runs every thread round-robin (bounded quantum per turn, so that a thread that spins - e.g. the
+// persister retrying a failing update - cannot starve the others) until nothing is enabled.
 func (w *World) runAll() {
-	for n := 0; n < 1000000; {
+	const quantum = 64
+	for n := 0; n < 2000000; {
 		prog := false
 		for i := 0; i < w.s.NumThreads(); i++ {
 			t := w.s.Thread(i)
-			for w.s.Enabled(t) {
+			for q := 0; q < quantum && w.s.Enabled(t); q++ {
 				w.s.Step(t, 0)
 				prog = true
 				n++
@@ -590,7 +592,7 @@ func (w *World) runAll() {
 			return
 		}
 	}
-	w.infra = "runAll: step budget exhausted"
+	w.infra = "runAll: step budget exhausted: " + w.describeThreads()
 }
 
 func (w *World) describeThreads() string {
